@@ -50,6 +50,14 @@ func registerStrings(e *Engine) {
 		}
 		return Sc{in.b.ZExt(in.str.CountByte(a, pc[0]), 64)}
 	}))
+	reg("strings.Repeat", func(in *Interp, _ *frame, _ *ssa.Function, args []Value, _ tokenPos) Value {
+		x, ok := args[0].(*Str).Concrete()
+		n := args[1].(Sc).T
+		if !ok || !n.IsConst() || int64(n.val) < 0 || int64(n.val)*int64(len(x)) > 1<<16 {
+			in.unsupported("strings.Repeat with symbolic arguments")
+		}
+		return in.str.Const(strings.Repeat(x, int(n.val)))
+	})
 	reg("strings.TrimPrefix", s2(func(in *Interp, a, p *Str) Value {
 		if x, ok := a.Concrete(); ok {
 			if y, ok2 := p.Concrete(); ok2 {
@@ -143,6 +151,11 @@ func registerStrings(e *Engine) {
 				if n, ok3 := nw.Concrete(); ok3 && args[3].(Sc).T.IsConst() {
 					return in.str.Const(strings.Replace(c, o, n, int(int64(args[3].(Sc).T.val))))
 				}
+			}
+		}
+		if o, ok := old.Concrete(); ok && o != "" {
+			if n, ok2 := nw.Concrete(); ok2 && args[3].(Sc).T.IsConst() && int64(args[3].(Sc).T.val) < 0 && s.Cap() <= 64 {
+				return in.str.ReplaceConst(s, o, n)
 			}
 		}
 		var pred func(*Term) *Term
@@ -435,7 +448,11 @@ func registerStrings(e *Engine) {
 		if p.IsNil() {
 			in.goPanicf(pos, "nilderef", "nil *regexp.Regexp")
 		}
-		return p.obj.val.(OpaqueV).Data.(*reModel).pat
+		rm := p.obj.val.(OpaqueV).Data.(*reModel)
+		if rm.alt != nil {
+			return in.str.Ite(rm.sel, rm.pat, rm.alt.pat)
+		}
+		return rm.pat
 	})
 	reg("regexp.QuoteMeta", func(in *Interp, _ *frame, _ *ssa.Function, args []Value, _ tokenPos) Value {
 		s := args[0].(*Str)
@@ -577,6 +594,9 @@ type reModel struct {
 	pat  *Str
 	prog *syntax.Prog
 	src  string
+	// a choice between two concrete expressions (harness API verifRegexpEither)
+	sel *Term
+	alt *reModel
 }
 
 func regexpQuoteMeta(s string) string {
@@ -755,6 +775,11 @@ func (in *Interp) newRegexp(p string, ps *Str, pos tokenPos) Value {
 
 func (in *Interp) reMatch(rm *reModel, s *Str) *Term {
 	b := in.b
+	if rm.alt != nil {
+		first := *rm
+		first.alt = nil
+		return b.Ite(rm.sel, in.reMatch(&first, s), in.reMatch(rm.alt, s))
+	}
 	if rm.prog == nil {
 		keys := append(in.strTerms(rm.pat), b.BV(0xffff, 16))
 		keys = append(keys, in.strTerms(s)...)
